@@ -42,6 +42,23 @@ def configs(tier="quick"):
             ("BV_CONCAT", [S("x", BVW), C("c1", BVV)]), ("BV_CONCAT", [S("x", BVW), S("y", BVV)])]
     for op in BV_UN:
         out += [(op, [C("c0", BVW)]), (op, [S("x", BVW)])]
+    # bit-string folds and arithmetic shift: concrete small widths, symbolic value
+    for W in (1, 2, 3, 4):
+        bw = ("BV", W)
+        for st in range(W):
+            for en in range(st, W):
+                out.append(("BV_EXTRACT", [C("c0", bw)], {"start": st, "end": en}))
+        for k in range(0, W + 1):
+            out.append(("BV_ROL", [C("c0", bw)], {"steps": k}))
+            out.append(("BV_ROR", [C("c0", bw)], {"steps": k}))
+        for k in (0, 1, 2):
+            out.append(("BV_ZEXT", [C("c0", bw)], {"increase": k}))
+            out.append(("BV_SEXT", [C("c0", bw)], {"increase": k}))
+        for sh in range(0, min(1 << W, W + 2)):
+            out.append(("BV_ASHR", [C("c0", bw), L(sh, bw)]))
+    out += [("BV_EXTRACT", [S("x", ("BV", 4))], {"start": 1, "end": 2}), ("BV_ROL", [S("x", ("BV", 4))], {"steps": 1}),
+            ("BV_ROR", [S("x", ("BV", 4))], {"steps": 3}), ("BV_ZEXT", [S("x", ("BV", 3))], {"increase": 2}),
+            ("BV_SEXT", [S("x", ("BV", 3))], {"increase": 2})]
     # Boolean connectives
     p, q, r = S("p", BOOL), S("q", BOOL), S("r", BOOL)
     T, F = L(True, BOOL), L(False, BOOL)
@@ -125,14 +142,14 @@ def all_verdicts(tier="quick"):
     from ..common import parallel_map
     cfgs = configs(tier)
     outs = parallel_map(_one, cfgs)
-    res = [(op, specs, vs) for (op, specs), vs in zip(cfgs, outs)]
+    res = [(c[0], c[1], vs) for c, vs in zip(cfgs, outs)]
     _CACHE[key] = res
     return res
 
 
 def _one(cfg):
-    op, specs = cfg
-    vs = sc.analyse(SIMPLIFIER, op, specs)
+    op, specs = cfg[0], cfg[1]
+    vs = sc.analyse(SIMPLIFIER, op, specs, payload_kwargs=cfg[2] if len(cfg) > 2 else None)
     for v in vs:
         v.detail = str(v.detail) if not isinstance(v.detail, str) else v.detail
     return vs
